@@ -16,7 +16,12 @@ for d in sorted(glob.glob(os.path.join(V, "seeded", "*"))):
     p2 = os.path.join(d, "patch-rebased.diff")
     jobs.append((p2 if os.path.exists(p2) else os.path.join(d, "patch.diff"), None, [meta["property"]]))
 for patch, key, props in jobs:
-    d = make_copy(patch)
+    try:
+        d = make_copy(patch)
+    except SystemExit as e:
+        print("%-60s PATCH DOES NOT APPLY" % os.path.relpath(patch, V), flush=True)
+        miss += 1
+        continue
     o = tempfile.mkdtemp(prefix="ssl-mut-out-")
     try:
         env = dict(os.environ, SSL_REPO=d, SSL_OUT=o)
